@@ -1,0 +1,30 @@
+//go:build verif
+
+// Contracts for the watermill verification harness (/verif, tool "gowp").
+// Comment-only: with the build tag off this file is not compiled, with it on it adds no code.
+
+package delay
+
+//@ func For
+//@   nopanic
+//@   ensures result.duration == delayedFor && result.time == timeadd(timeutc(nowval(old(ncalls(NOW)))), delayedFor) [until-is-now-plus-for]
+//@   ensures ncalls(NOW) == old(ncalls(NOW)) + 1 [one-clock-reading]
+
+//@ func Until
+//@   nopanic
+//@   ensures result.time == delayedUntil && result.duration == timesub(delayedUntil, timeutc(nowval(old(ncalls(NOW))))) [for-is-until-minus-now]
+//@   ensures ncalls(NOW) == old(ncalls(NOW)) + 1 [one-clock-reading]
+
+//@ func (Delay).IsZero
+//@   nopanic
+//@   pure
+//@   ensures result == timeiszero(d.time)
+
+//@ func Message
+//@   requires msg != nil [panics-otherwise-nil-message]
+//@   requires msg.Metadata != nil [panics-otherwise-nil-map]
+//@   nopanic
+//@   ensures has(msg.Metadata, DelayedUntilKey) && msg.Metadata[DelayedUntilKey] == timefmt(delay.time, "2006-01-02T15:04:05Z07:00") [until-stamped]
+//@   ensures has(msg.Metadata, DelayedForKey) && msg.Metadata[DelayedForKey] == durstr(delay.duration) [for-stamped]
+//@   ensures forall k string :: k != DelayedUntilKey && k != DelayedForKey ==> has(msg.Metadata, k) == old(has(msg.Metadata, k)) && msg.Metadata[k] == old(msg.Metadata[k]) [other-keys-untouched]
+//@   modifies map(msg.Metadata)
